@@ -23,12 +23,13 @@ Theorem C19_compare_values_spec : forall o e c,
      Agree (close_c o) neg_c (cv_phase o) (cast_with to_c e) (cast_with to_c c)))).
 Proof. exact compare_values_spec. Qed.
 
-(** the False verdict, exactly: a cast fails, the shapes differ, or (usable atol) neither the data nor — on
-    request — the negated data are all close *)
+(** the False verdict, exactly: the inputs are not cast-able (a ragged nest met by np.iscomplexobj, or a failing
+    cast), the shapes differ, or (usable atol) neither the data nor — on request — the negated data are all close *)
 Theorem C19_compare_values_false_spec : forall o e c,
   compare_values o e c = Ok false <->
   both_none o e c = false /\
-  ((iscomplex_pair e c = Ok false /\ Disagree (close_f o) PrimFloat.opp o (cast_with to_f e) (cast_with to_f c)) \/
+  ((exists k, iscomplex_pair e c = Raise k) \/
+   (iscomplex_pair e c = Ok false /\ Disagree (close_f o) PrimFloat.opp o (cast_with to_f e) (cast_with to_f c)) \/
    (iscomplex_pair e c = Ok true /\ Disagree (close_c o) neg_c o (cast_with to_c e) (cast_with to_c c))).
 Proof. exact compare_values_false_spec. Qed.
 
@@ -41,16 +42,21 @@ Theorem C19_compare_values_total : forall o e c cx,
   exists v, compare_values o e c = Ok v.
 Proof. exact compare_values_total. Qed.
 
-(** the only exceptions: a ragged nest met by np.iscomplexobj (outside the try block), and an unusable atol *)
+(** the only exception left is an unusable atol (<= 0, NaN, infinite: the digits of the failure message); since
+    65b8c68 a ragged nest no longer raises *)
 Theorem C19_compare_values_raise_spec : forall o e c k,
-  compare_values o e c = Raise k ->
-  (k = EValue /\ iscomplex_pair e c = Raise EValue) \/ atol_exc (atol o) = Some k.
+  compare_values o e c = Raise k -> atol_exc (atol o) = Some k.
 Proof. exact compare_values_raise_spec. Qed.
 
 (** in particular a mismatch never escapes as TypeError (repaired by 4bd9561: 0-d complex mismatches) *)
 Theorem C19_compare_values_raises_only : forall o e c k,
   compare_values o e c = Raise k -> k = EValue \/ k = EOverflow.
 Proof. exact compare_values_raises_only. Qed.
+
+(** a ragged nest on either side is a cast failure: verdict False, whatever atol is (repaired by 65b8c68) *)
+Theorem C19_ragged_is_false : forall o e c k,
+  both_none o e c = false -> iscomplex_pair e c = Raise k -> compare_values o e c = Ok false.
+Proof. exact ragged_is_false. Qed.
 
 (** a complex computed value against a real expected one is compared as complex, so its imaginary part counts
     (repaired by 4bd9561); with the spec above this fixes the rule applied *)
@@ -229,11 +235,23 @@ Example C19_ex_fixed_complex_npbool :
   compare_recursive (r6 [] (EpBool false)) (TDict [("a", TSc true (SBool true))]) (TDict [("a", TSc false (SBool false))]) = Ok false.
 Proof. repeat split. Qed.
 
+(** the old failing inputs of 65b8c68: ragged expected, ragged computed, at top level and as a float leaf *)
+Definition ragged := TList [TList [fl 1; fl 2]; TList [fl 3]].
+Definition square := TList [TList [fl 1; fl 2]; TList [fl 3; fl 4]].
+Example C19_ex_fixed_ragged :
+  compare_values o6 square ragged = Ok false /\
+  compare_values o6 ragged ragged = Ok false /\
+  compare_values {| atol := 0; rtol := 0; equal_nan := false; cv_phase := false; passnone := false |} ragged (fl 1) = Ok false /\
+  iscomplex_pair ragged square = Raise EValue /\ iscomplex_pair square ragged = Raise EValue /\
+  compare_recursive (r6 [] (EpBool false)) (TDict [("a", fl 1)]) (TDict [("a", ragged)]) = Ok false.
+Proof. repeat split. Qed.
+
 Print Assumptions C19_compare_values_spec.
 Print Assumptions C19_compare_values_false_spec.
 Print Assumptions C19_compare_values_total.
 Print Assumptions C19_compare_values_raise_spec.
 Print Assumptions C19_compare_values_raises_only.
+Print Assumptions C19_ragged_is_false.
 Print Assumptions C19_complex_computed_counts.
 Print Assumptions C19_compare_spec.
 Print Assumptions C19_compare_never_raises.
